@@ -100,9 +100,11 @@ def run(ctx):
     ctx.exhaustive = True
     ctx.extra["id_base"] = id_base(ctx)
     ctx.rule = ("cases = static families of AnnotateChange.tla (Singles: one modified/deleted element of each kind, versions 1..4, "
-                "against every stored order of every subset of 1..HMax and against no history, both options; Pairs: two elements "
-                "in every pair of cells x every shape; Houses; Failing) enumerated completely by TLC (%s) + seeded random draws of "
-                "the full product space; distinct = distinct abstract cases; non-trivial = at least one modified or deleted element"
+                "against every stored order of every subset of 1..HMax and against no history, both ignore-missing settings, option sets "
+                "and id tables rotated; Pairs: two elements in every pair of cells x every shape; Houses; Failing; Optioned: all 36 "
+                "settings of the other options x missing/present predecessor; IdTables: concrete ids 0 / 2^40-1 / negative as first and "
+                "later element of every pair of update cells) enumerated completely by TLC (%s) + seeded random draws of the full product "
+                "space; distinct = distinct abstract cases; non-trivial = at least one modified or deleted element"
                 % ("AnnotateChangeGen_%s*.cfg" % tier))
     ctx.assumptions = [
         "version numbers are distinct within one stored history (the property speaks of 'the' greatest version below)",
@@ -111,7 +113,11 @@ def run(ctx):
         "the order among the elements of one (action, kind) cell is not fixed by the property; a different order there is "
         "reported as DIVERGENCE, not as a violation",
         "datasource errors other than not-found are outside the property (modelled, compared as divergence only)",
-        "ids are rendered as id_base + i with id_base chosen by the seed (0, 4e9, 2^40-1002)",
+        "only IgnoreMissingChildren(true) may change the outcome: Judge and Model never read the other option settings "
+        "(IgnoreInconsistency, Threshold, ChildFilter, explicit IgnoreMissingChildren(false)), all of which are enumerated",
+        "ids are rendered through the id table named by the case: base = id_base + i with id_base chosen by the seed (0, 4e9, "
+        "2^40-1002), or tables containing 0, 2^40-1, 2^39 and negative ids; negative ids (not representable by osm.FeatureID) "
+        "are only combined with ignore-missing on, where no typed error is due",
     ]
 
 
